@@ -91,6 +91,7 @@ def replay_all(scn):
 
 def growth(ctx: Ctx):
     ctx.mc("MC_DevOps", "SPECIFICATION OSpec\n" + CFG, name=f"{ctx.pid}_mc_devops", timeout=900)
+    ctx.mc("MC_DevOps", "SPECIFICATION FairOSpec\nCONSTANTS\nRetries = 3\nPROPERTY Terminates\nCHECK_DEADLOCK FALSE\n", name=f"{ctx.pid}_live_devops", timeout=900)
     r = run_tlc("MC_DevOps", "SPECIFICATION OSpec\nCONSTANTS\nRetries = 3\nCONSTRAINT GEmit\nCHECK_DEADLOCK FALSE\n", name=f"{ctx.pid}_gen_devops", workers=1, timeout=900)
     scn = [json.loads(p[1]) for p in r.prints if isinstance(p, list) and p and p[0] == "SCN"]
     if len(scn) < 100:
